@@ -279,7 +279,7 @@ func c35HTTPFilter(c *Ctx, p *Prog) {
 		c.passE(p, sh, "C35.http_filter.guard", "(*httpp.handlerFilterRequests).ServeHTTP: forwards only when URL.Path[0] == '/'", fwd, T(`($2.URL.Path[0] == 47)`))
 		for _, i := range callsIn(sh, "(net/http.Handler).ServeHTTP") {
 			cc := callCommon(i)
-			c.Check("C35.http_filter.guard", "(*httpp.handlerFilterRequests).ServeHTTP: forwards the same request", desc(cc.Value) == "$0.h" && len(cc.Args) == 2 && desc(cc.Args[1]) == "$2",
+			c.Check("C35.http_filter.guard", "(*httpp.handlerFilterRequests).ServeHTTP: forwards the same request", strings.HasPrefix(desc(cc.Value), "$0.") && strings.Count(desc(cc.Value), ".") == 1 && len(cc.Args) == 2 && desc(cc.Args[1]) == "$2",
 				p.Pos(posOf(i, sh)), "")
 		}
 	}
@@ -293,7 +293,8 @@ func c35HTTPFilter(c *Ctx, p *Prog) {
 				return
 			}
 			fa, ok := st.Addr.(*ssa.FieldAddr)
-			if !ok || fieldAddrName(fa) != "h" {
+			// the wrapped handler: the wrapper's field of type http.Handler (whatever its name)
+			if !ok || typeStr(fa.Type().Underlying().(*types.Pointer).Elem()) != "net/http.Handler" {
 				return
 			}
 			if a, ok := fa.X.(*ssa.Alloc); ok && strings.HasPrefix(typeStr(a.Type()), "*protocols/httpp.handler") {
